@@ -56,6 +56,24 @@ def gen_script(rng, maxlen=8, pars=None, mons=None, extra="", len8=4):
     return cfg + " | " + " ".join(body + ["r0", "r0", "r0", "z"])
 
 
+def gen_long(rng):
+    """inputs of 65..320 elements (batching, buffers, internal chunk sizes); the model's state set grows too fast for
+    these: direct oracle only (cfg long=1)"""
+    par = rng.choice([1, 2, 3, 4, 8])
+    n = rng.choice([65, 66, 100, 127, 128, 129, 200, 320])
+    xs = [rng.randrange(1, 60) for _ in range(n)]
+    mon = rng.choice(sorted(MONOIDS))
+    cap = rng.choice([0, 1, 5, 64, 100, 200])
+    cfg = "stage=Fold pkg=fork par=%d cap=%d mon=%s long=1" % (par, cap, mon)
+    sends = ["s%d" % x for x in xs]
+    if cap >= 64:
+        # bursts: as many sends as the input buffer holds, back to back (the workers meet a full buffer, not one element
+        # at a time); a send that finds the buffer full does not complete and is not part of the input
+        k = rng.choice([64, cap])
+        sends = ["b" + ",".join(sends[i:i + k]) for i in range(0, len(sends), k)]
+    return cfg + " | " + " ".join(sends + ["c0", "r0", "r0", "r0", "z"])
+
+
 def gen_procs(rng):
     """few scheduler processors, many workers; monoids whose identity is not the zero value are favoured"""
     procs = rng.choice([1, 2, 2])
@@ -176,7 +194,7 @@ def judge_all(ctx, binp, scripts):
             obs[i] = o[j]
         for j, txt in cr.items():
             crashes[idx[j] if j >= 0 else -1] = txt
-    midx = [i for i, c in enumerate(cfgs) if c["stage"] == "Fold"]
+    midx = [i for i, c in enumerate(cfgs) if c["stage"] == "Fold" and not c.get("long")]
     verdicts = dict(zip(midx, ls.oracle_check(ctx, [scripts[i] for i in midx], [obs[i] for i in midx], sub="forkfold")))
     out = []
     for i, s in enumerate(scripts):
@@ -237,6 +255,7 @@ def run(ctx):
         k = 10 if ctx.thorough() else 1
         scripts = [gen_script(ctx.rng) for _ in range(400 * k)]
         scripts += [gen_procs(ctx.rng) for _ in range(100 * k)]
+        scripts += [gen_long(ctx.rng) for _ in range(12 * k)]
         scripts += [gen_variant(ctx.rng, True, False) for _ in range(80 * k)]
         scripts += [gen_variant(ctx.rng, False, True, same=True) for _ in range(60 * k)]
         scripts += [gen_variant(ctx.rng, True, True, same=True) for _ in range(20 * k)]
